@@ -743,7 +743,8 @@ package server
 //@   at call PriorityMutex.Unlock assert C01.section.shape,C04.section.shape: calls(RemoveLockManager) >= 1 || calls(addWaitRemoveLockManager) >= 1 || sectionShape(self, lockManager)
 //@   at call PriorityMutex.Unlock assert C01.section.oldest,C04.section.oldest: calls(RemoveLockManager) >= 1 || calls(addWaitRemoveLockManager) >= 1 || sectionOldest(lockManager)
 //@   at call PriorityMutex.Unlock assert C04.timeout.waited-flag,C19.timeout.waited-flag: implies(atsection(lockManager.waited) && !lockManager.waited, calls(GetWaitLock) >= 1 && ghost.lastWaitLock[ref(lockManager)] == 0)
-//@   at call RemoveLock assert C11.timeout.undo: implies(atsection(lock.ackCount) != 0xff && atsection(lock.command.Flag)&0x20 != 0, calls(ProcessRecoverLockData) == 1)
+//@   at call RemoveLock assert C11.timeout.undo,C15.timeout.undo: implies(atsection(lock.ackCount) != 0xff && atsection(lock.command.Flag)&0x20 != 0, calls(ProcessRecoverLockData) == 1)
+//@   at call RemoveLock assert C15.timeout.value-first: implies(atsection(lock.command.Flag)&0x20 != 0, calls(ProcessRecoverLockData) + calls(ProcessExecuteLockCommand) == 1)
 //@   requires self != nil && lock != nil && lock.manager != nil && lock.manager.glock != nil
 //@   at call PriorityMutex.Lock after havoc Lock.*, LockManager.locked, LockManager.currentLock, LockManager.currentData, LockManager.locks, LockManager.waitLocks, LockManager.waited, LockManager.refCount, LockManager.lockKey, LockManager.fastKeyValue, LockManagerLockQueue.*, LockManagerWaitQueue.*, LockQueue.*, protocol.LockDBState.*, LockDB.status, LockDB.currentTime
 //@   at call PriorityMutex.Lock after assume sectionInv(self, lockManager) && lockManager.freeLocks != nil && sectionAssumeOnly(lockManager) && lock.manager == lockManager && implies(!lock.timeouted, lock.command != nil && lock.protocol != nil && lock.locked <= lockManager.locked)
@@ -999,6 +1000,49 @@ package server
 //@   at call LockDB.UnLock assert C10.forward.same-request,C14.transparency.decode-unlock: implies(calls(ProcessParseLockData) == 0, inlineLockDecode(lockCommand, buf) && arg2 == lockCommand)
 //@   modifies all
 
+// C13: the per-connection cache of recycled commands is a fixed 64-slot array with a fill level: a command is
+// parked in it only while a slot is free (level < 64) and taken from it only while the level is positive; beyond
+// that the locked overflow queue is used. cmdCacheOk is the representation invariant (the constructors allocate
+// FREE_COMMAND_MAX_SIZE slots and start at level 0)
+//@ spec func cmdCacheOk(p) = len(p.freeCommands) == FREE_COMMAND_MAX_SIZE && 0 <= p.freeCommandIndex && p.freeCommandIndex <= FREE_COMMAND_MAX_SIZE
+//@ func (*BinaryServerProtocol).FreeLockCommandLocked
+//@   trusted overflow queue of the command cache (mutex-protected deque)
+//@   modifies LockCommandQueue.*, protocol.LockCommand.Data, E_Pprotocol_LockCommand, E_int32
+//@ func (*TextServerProtocol).FreeLockCommandLocked
+//@   trusted overflow queue of the command cache (mutex-protected deque)
+//@   modifies LockCommandQueue.*, protocol.LockCommand.Data, E_Pprotocol_LockCommand, E_int32
+//@ func (*MemWaiterServerProtocol).FreeLockCommandLocked
+//@   trusted overflow queue of the command cache (mutex-protected deque)
+//@   modifies LockCommandQueue.*, protocol.LockCommand.Data, E_Pprotocol_LockCommand, E_int32
+//@ func (*TextServerProtocol).GetLockCommandLocked
+//@   trusted overflow queue of the command cache (mutex-protected deque)
+//@   ensures result != nil
+//@   modifies LockCommandQueue.*, E_Pprotocol_LockCommand, E_int32
+//@ func (*BinaryServerProtocol).FreeLockCommand
+//@   requires self != nil && command != nil && cmdCacheOk(self)
+//@   safe C13
+//@   ensures C13.cmdcache.bounded: cmdCacheOk(self)
+//@   modifies BinaryServerProtocol.freeCommandIndex, LockCommandQueue.*, protocol.LockCommand.Data, E_Pprotocol_LockCommand, E_int32
+//@ func (*TextServerProtocol).FreeLockCommand
+//@   requires self != nil && command != nil && cmdCacheOk(self)
+//@   safe C13
+//@   ensures C13.cmdcache.bounded: cmdCacheOk(self)
+//@   modifies TextServerProtocol.freeCommandIndex, LockCommandQueue.*, protocol.LockCommand.Data, E_Pprotocol_LockCommand, E_int32
+//@ func (*MemWaiterServerProtocol).FreeLockCommand
+//@   requires self != nil && command != nil && cmdCacheOk(self)
+//@   safe C13
+//@   ensures C13.cmdcache.bounded: cmdCacheOk(self)
+//@   modifies MemWaiterServerProtocol.freeCommandIndex, LockCommandQueue.*, protocol.LockCommand.Data, E_Pprotocol_LockCommand, E_int32
+//@ func (*BinaryServerProtocol).GetLockCommand
+//@   requires self != nil && cmdCacheOk(self)
+//@   safe C13
+//@   ensures C13.cmdcache.bounded: cmdCacheOk(self)
+//@   modifies BinaryServerProtocol.freeCommandIndex, LockCommandQueue.*, E_Pprotocol_LockCommand, E_int32
+//@ func (*TextServerProtocol).GetLockCommand
+//@   requires self != nil && cmdCacheOk(self)
+//@   safe C13
+//@   ensures C13.cmdcache.bounded: cmdCacheOk(self)
+//@   modifies TextServerProtocol.freeCommandIndex, LockCommandQueue.*, E_Pprotocol_LockCommand, E_int32
 //@ func (*BinaryServerProtocol).GetLockCommandLocked
 //@   requires self != nil
 //@   ensures result != nil
